@@ -45,6 +45,10 @@ RULE = ('twin-object cases drawn from the seed: (object kind, Fs, channels, appl
         'with a random cut point; a case is distinct by (mode, kind, Fs, channels, application, family); scenarios bias the '
         'encoder towards the FEC hysteresis zone, mode switching with prediction disabled, and silence/DTX')
 NOT_COVERED = [
+    'cross-arch equality is C15\'s: every twin equivalence (clone, reset, determinism) is checked AT each OPUS_VERIF_ARCH_CAP '
+    'level (both twins run at the same level), never ACROSS levels; an optimised kernel that is self-consistent but answers '
+    'differently from the C kernel (seeded change C12-m5, SSE4.1 LTP codebook tie-break) leaves C12 satisfied and is '
+    'caught by C15 (kernels match the portable code)',
     'determinism / copyability / reset-equivalence of the DSP interior (SILK, CELT, tonality analysis, resamplers): searched '
     'by the twin harness (byte equality under poisoned heap and stack, decoy objects, every RTCD level), not proved',
     'absence of uninitialised reads: explored with zero / 0x5A / 0xA5 heap+stack+output-buffer fills and ASan in both tiers, and with a '
